@@ -20,7 +20,15 @@ const fn f(name: &'static str, mandatory: bool, values: &'static [&'static str],
 
 const TEXT: &[&str] = &["foo", "two words", "é漢 x", "a:b #c"];
 const MULTI: &[&str] = &["short description", "short\nlong line one\n.\nlong line two", "x\ny"];
-const RELS: &[&str] = &["libc6 (>= 2.14), libgcc1", "a | b (<< 1:2.0~rc1), c [amd64 !i386] <!nocheck>", "debhelper-compat (= 13)"];
+const RELS: &[&str] = &[
+    "libc6 (>= 2.14), libgcc1",
+    "a | b (<< 1:2.0~rc1), c [amd64 !i386] <!nocheck>",
+    "debhelper-compat (= 13)",
+    // restriction groups that mix negated and plain terms, in both orders and in several groups
+    "gcc-cross <!stage1 cross>, d <cross !nocheck> <!a b !c>",
+    // qualified names with and without further parts
+    "python3:any, perl:native (>= 5.10) | e:amd64 [!hurd-i386 linux-any]",
+];
 const URLS: &[&str] = &["https://example.com/", "http://bugs.debian.org/510219", "https://salsa.debian.org/x/y"];
 const PRIO: &[&str] = &["optional", "required", "extra"];
 const YESNO: &[&str] = &["yes", "no"];
